@@ -206,6 +206,24 @@ pub fn plan(prop: &str, tier: Tier) -> Option<Plan> {
                 p.phases.push(phase(&format!("C01: S1 trees under all 8 request + 32 response configurations (header D={dq}, lines D={})", dq - 1), Backend::Native, t));
                 p.bounds.push(format!("S1: all 128 ParserConfig values (8 request-relevant x 32 response-relevant behaviours) at header Σ^≤{dq}, line Σ^≤{}", dq - 1));
             }
+            {
+                // in-class bytes around the buffer: an over-read that stays inside mapped memory
+                // makes a scanner run on past the end (debug assertion / wrong result)
+                use crate::arena::Place;
+                let none = Companions::None;
+                let dq = if q { 5 } else { 7 };
+                let mut specs = header_trees(&all_hdr, &[2], 1, dq, 0, &none);
+                specs.extend(request_trees(&multi_req, 2, 1, dq - 1, 0, &none));
+                specs.extend(status_trees(&multi_resp, 2, 1, dq - 1, 0, &none));
+                for k in [0usize, 3] {
+                    let mut sp = specs.clone();
+                    for s in sp.iter_mut() {
+                        s.lane.place = Place::Hostile(k);
+                    }
+                    p.phases.push(phase(&format!("C01: S1 trees with in-class bytes around the buffer (offset {k}; header D={dq}, lines D={})", dq - 1), Backend::Native, tree_tasks(sp)));
+                }
+                p.bounds.push(format!("S1 hostile surroundings: header Σ^≤{dq} / line Σ^≤{} trees with the buffer placed between runs of 'a' bytes at start offsets 0 and 3", dq - 1));
+            }
             s2::add_entry_sweep(&mut p, q);
             s2::add_lane_phase(&mut p, q, &BACKENDS);
             s3::add_grids(&mut p, q, false);
